@@ -1061,6 +1061,10 @@ func (x *Exec) enterLoop(fr *Frame, li *loopInfo, entry *State, edgeStates []*St
 				continue
 			}
 			st.cells[c] = x.freshValue(fmt.Sprintf("L%d_%s", li.ordinal, c.Name), c.T, st.guard)
+		} else if c.T != nil && strings.HasPrefix(c.Name, "ret$") {
+			// result ghost of a callee first called inside this loop: at the head of a later iteration it holds the
+			// previous iteration's result - an arbitrary value the invariants may speak about
+			st.cells[c] = x.freshValue(fmt.Sprintf("L%d_%s", li.ordinal, c.Name), c.T, st.guard)
 		}
 	}
 	// map iteration: the keys already yielded are keys of the map (holds by construction of Next as
